@@ -81,9 +81,14 @@ def recoverable(blob):
     return out
 
 
-def cut_points(ends, n, rng, tier, nrec=0):
+def cut_points(ends, n, rng, tier, nrec=0, blob=None):
     if tier != "quick": return list(range(0, n + 1))
     pts = {0, n}
+    if blob is not None:
+        # plain log: every place inside a record where the text so far ends with closing brackets and goes on with something
+        # else - a prefix that LOOKS finished to anything less than a parser (nested lists / dicts in rows and params)
+        for i in range(1, n):
+            if blob[i - 1] in b"]}" and blob[i] not in b"]}\n": pts.add(i)
     starts = [0] + ends[:-1]
     for s, e in zip(starts, ends):
         pts.update({s, s + 1, e - 1, e, min(e, s + 2)})
@@ -150,7 +155,7 @@ def run(ctx):
             else:
                 ends = members(blob)
                 keys = [k for k, _ in explib.log_records(gzip.decompress(blob).decode().splitlines())]
-            for b in cut_points(ends, len(blob), rng, ctx.tier, len(keys)):
+            for b in cut_points(ends, len(blob), rng, ctx.tier, len(keys), blob if kind == "plain" else None):
                 cfg = CFGS[rng.randrange(len(CFGS))]
                 nc, torn = classify(ends, b) if kind == "plain" else classify_gz(blob, b)
                 case = dict(shape=si, kind=kind, cut=b, size=len(blob), complete=nc, torn=torn, cfg=cfg)
